@@ -5,7 +5,7 @@ from .refmodel import LITS, POSIX, POSIX_NAMES, set_has
 
 # Characters that are (or may be, under some flag) magic outside a bracket expression.
 META = frozenset('*?[]\\()|!-{}~+@,')
-SET_ESC = frozenset(']\\-^![')
+SET_ESC = frozenset(']\\-^![,{}|')
 
 
 def ser_lit(c, noescape=()):
